@@ -1062,6 +1062,12 @@ def parse_tree_to_objgraph(
             model._pos_rule_dict = OrderedDict(
                 sorted(pos_rule_dict.items(), key=lambda x: (-x[0][0], x[0][1]))
             )
+
+        if is_immutable_obj:
+            # A model which is a plain value (e.g. int or str) can not be
+            # marked as being in construction, so nothing ends its
+            # construction later on: give user classes back here.
+            parser._restore_user_attr_methods()
     # exception occurred during model creation
     except:  # noqa
         _remove_all_affected_models_in_construction(model)
